@@ -222,7 +222,7 @@ def extract_inputs(trace):
         lhs = st.get('lhs', '')
         if not lhs.startswith('IN_'):
             continue
-        lhs = re.sub(r'\[(\d+)[a-zA-Z]*\]', r'[\1]', lhs)
+        lhs = re.sub(r'\[(\d+)[a-zA-Z]*\]', r'[\1]', lhs)   # IN_a[0l][1l] -> IN_a[0][1]
         put(lhs, jval(st.get('value')))
     return vals
 
